@@ -151,6 +151,17 @@ def model_validation(seed, verbose=False):
                                 [(a, k) for a in dys + [0.125, 0.375, 2.675, 1.005, -0.5625, 12345.6875] for k in (-2, -1, 0, 1, 2, 3)]))
     results.append(differential('dyadic roundup kernel', lambda a, k: models.sym_call(math.ceil, abs(a) * 10 ** k) / 10 ** k,
                                 lambda a, k: math.ceil(abs(a) * 10 ** k) / 10 ** k, [(a, k) for a in dys for k in (0, 1, 2, 3)]))
+    try:
+        from dateutil.parser import parse as _du
+        isos = ['2020-10-12', '1900-01-01', '9999-12-31', '2000-02-29', '2020-10-12 10:04', '2020-10-12T10:04', '2020-10-12T10:04:05',
+                '2020-10-12 23:59:59', '0001-01-01', '2021-12-31T00:00', '1999-07-04 07:08:09', '2400-02-29T12:00:00']
+        for _ in range(12):
+            y, m = rnd.randint(1900, 9999), rnd.randint(1, 12)
+            dd = rnd.randint(1, 28)
+            isos.append('%04d-%02d-%02d%s%02d:%02d:%02d' % (y, m, dd, rnd.choice(' T'), rnd.randint(0, 23), rnd.randint(0, 59), rnd.randint(0, 59)))
+        results.append(differential('dateutil ISO contract', lambda t: dates._dateutil_stub(t), lambda t: _du(t), [(t,) for t in isos]))
+    except ImportError:
+        pass
     expforms = ['1e2', '5E0', '9e9', '1.5e-3', '0.0E-9', '7.25e+2', ' 3e1 ', '-4e-2', '+2.5E3', '1e', 'e5', '1e+', '1.e2', '.5e1', '1e2.0',
                 '12345.678e-4', '0e0', '9.9E-9', '1ee2', '1e-22', '123456789012e3']
     results.append(differential('float(exponent text)', lambda s: models.m_float(s), float, [(s,) for s in expforms]))
